@@ -402,11 +402,11 @@ theorem dryT_paths (C : exit0_Ctx) (hG : exit0_Good C) (hH : dryT_Hyp C) (hm : C
       have hfu : (sortedNames es).length + 1 +
           (if (Subdir.new = Subdir.new) then
             (st.files.filter (fun x => x.1 == root ++ [47] ++ subdirName .cur)).length + 3 else 0) ≤
-          walkFuel st root np := by
+          walkFuel C.env st root np := by
         rw [World.length_sortedNames]
         simp only [if_true, walkFuel]
         omega
-      refine dryT_wpS_bind (dryT_walk C hG hH b.expr (walkFuel st root np) _ st w3 pre _ (sortedNames es) h3 rfl rfl
+      refine dryT_wpS_bind (dryT_walk C hG hH b.expr (walkFuel C.env st root np) _ st w3 pre _ (sortedNames es) h3 rfl rfl
         ⟨?_, hnp⟩ ⟨none, 0, hobj3⟩ hrem3 hs (fun _ => ⟨_, rfl⟩) (fun _ => hf3) hrokO hinvO hdirs3 herr hfu) ?_
       · intro d' hd'
         cases hd'
@@ -665,7 +665,7 @@ theorem dryT_real_dirs (env : PEnv) (orc : EvalOracles) (confOk : Bool) (conf : 
   obtain ⟨_, hq, hsame⟩ := World.wpS_sound plan (wpS_and h1 h2) hp.budget
   intro D hD
   rw [← hsame D]
-  exact (hq he).2 D hD
+  exact (hq he).2.1 D hD
 
 /-- **If the real run ends with exit status 0, so does the dry run** (fault-free plan, maildir mode, rules
 without discard that ask the operating system nothing, no message visited twice). -/
